@@ -46,10 +46,11 @@ const (
 	exitScopeCreateFail
 	exitProviderClosed
 	exitClientCancel
+	exitResolveFail // the scoped service's constructor fails for this request only: the controller cannot be resolved
 	nExits
 )
 
-var exitNames = []string{"ok", "mw-error", "handler-error", "handler-panic", "scope-create-fail", "provider-closed", "client-cancel"}
+var exitNames = []string{"ok", "mw-error", "handler-error", "handler-panic", "scope-create-fail", "provider-closed", "client-cancel", "resolve-fail"}
 
 const (
 	routePlain   = iota // handler reads the scope from the request context
@@ -69,6 +70,8 @@ type webCase struct {
 	Recovery      bool // Handle: panic recovery enabled
 	CustomHandler bool // Handle: custom panic/scope/resolution handlers
 	CloseErr      bool // the scoped service's Close returns an error
+	Decoy         int  // second ScopeMiddleware instance with its own options: bit0 built before, bit1 built after the one serving the routes
+	DecoyMw       int
 	Batches       [][]webReq
 }
 
@@ -97,7 +100,7 @@ func (c *webCase) Describe() map[string]any {
 	}
 	return map[string]any{"engine": "web-sim", "framework": frameworks[c.Framework], "custom_error_handler_only_writes": c.CustomErr,
 		"custom_close_error_handler": c.CustomClose, "middlewares": c.NMw, "handle_panic_recovery": c.Recovery,
-		"handle_custom_handlers": c.CustomHandler, "scoped_close_fails": c.CloseErr, "request_batches(concurrent within a batch)": bs}
+		"handle_custom_handlers": c.CustomHandler, "scoped_close_fails": c.CloseErr, "second_middleware_instance(1=before,2=after,3=both)": c.Decoy, "second_instance_middlewares": c.DecoyMw, "request_batches(concurrent within a batch)": bs}
 }
 
 func decodeWebCase(tier string, idx int, tape *Tape) *webCase {
@@ -108,6 +111,10 @@ func decodeWebCase(tier string, idx int, tape *Tape) *webCase {
 	c.Recovery = tape.Choose(StCfg, 2) == 1
 	c.CustomHandler = tape.Choose(StCfg, 2) == 1
 	c.CloseErr = tape.Choose(StFault, 4) == 3
+	if tape.Choose(StCfg, 2) == 1 {
+		c.Decoy = 1 + tape.Choose(StCfg, 3)
+		c.DecoyMw = tape.Choose(StCfg, 4)
+	}
 	nb := 1 + tape.Choose(StOps, 3)
 	closed := false
 	for b := 0; b < nb; b++ {
@@ -148,6 +155,9 @@ func decodeWebCase(tier string, idx int, tape *Tape) *webCase {
 				}
 			}
 			if r.Route == routeNoScope && r.Exit != exitProviderClosed {
+				r.Exit = exitOK
+			}
+			if r.Exit == exitResolveFail && r.Route != routeHandle {
 				r.Exit = exitOK
 			}
 			batch = append(batch, r)
@@ -212,6 +222,7 @@ type webRec struct {
 	status        int
 	body          string
 	outerPanic    any
+	decoyCalls    int
 	done          bool
 	afterGetErr   error
 	afterProbed   bool
@@ -220,6 +231,7 @@ type webRec struct {
 }
 
 type webRun struct {
+	decoys  []any
 	c       *webCase
 	recs    []*webRec
 	cur     [simrt.MaxTasks]*webRec
@@ -265,13 +277,17 @@ func (p *countingProvider) CreateScope(ctx context.Context) (godi.Scope, error) 
 var errMw = errors.New("injected middleware error")
 var errHandler = errors.New("injected handler error")
 var errScopeInit = errors.New("injected scope initializer failure")
+var errResolve = errors.New("injected constructor failure for this request")
 
 //go:norace
 func (r *webRun) buildProvider() (godi.Provider, error) {
 	c := godi.NewCollection()
 	c.AddSingleton(func() *webSingleton { return &webSingleton{} })
-	c.AddScoped(func(g *webSingleton) *webScoped {
+	c.AddScoped(func(g *webSingleton) (*webScoped, error) {
 		rec := r.rec()
+		if rec != nil && rec.req.Exit == exitResolveFail {
+			return nil, errResolve
+		}
 		s := &webScoped{id: r.nextSvc, run: r, req: -1, closeFails: r.c.CloseErr}
 		r.nextSvc++
 		if rec != nil {
@@ -279,7 +295,7 @@ func (r *webRun) buildProvider() (godi.Provider, error) {
 			rec.insts = append(rec.insts, s)
 		}
 		simrt.Yield(siteCtorEnter)
-		return s
+		return s, nil
 	})
 	c.AddScoped(func(s godi.Scope, svc *webScoped) *webController {
 		if rec := r.rec(); rec != nil {
@@ -354,6 +370,16 @@ func (r *webRun) mwBody(i int, scope godi.Scope) error {
 		return errMw
 	}
 	return nil
+}
+
+// decoyHit: an option given to the second ScopeMiddleware instance was used for
+// a request that only passes the first.
+//
+//go:norace
+func (r *webRun) decoyHit() {
+	if rec := r.rec(); rec != nil {
+		rec.decoyCalls++
+	}
 }
 
 // --- adapters ---------------------------------------------------------------
@@ -453,7 +479,21 @@ func (r *webRun) stdParts(isChi bool) (scopeMw func(http.Handler) http.Handler, 
 		for i := 0; i < c.NMw; i++ {
 			opts = append(opts, godichi.WithMiddleware(mk(i)))
 		}
+		decoy := func() {
+			d := []godichi.Option{godichi.WithErrorHandler(func(w http.ResponseWriter, rq *http.Request, err error) { r.decoyHit(); w.WriteHeader(598) }),
+				godichi.WithCloseErrorHandler(func(error) { r.decoyHit() })}
+			for i := 0; i < c.DecoyMw; i++ {
+				d = append(d, godichi.WithMiddleware(mk(100+i)))
+			}
+			r.decoys = append(r.decoys, godichi.ScopeMiddleware(cp, d...))
+		}
+		if c.Decoy&1 != 0 {
+			decoy()
+		}
 		scopeMw = godichi.ScopeMiddleware(cp, opts...)
+		if c.Decoy&2 != 0 {
+			decoy()
+		}
 		var ho []godichi.HandlerOption
 		ho = append(ho, godichi.WithPanicRecovery(c.Recovery))
 		if c.CustomHandler {
@@ -473,7 +513,21 @@ func (r *webRun) stdParts(isChi bool) (scopeMw func(http.Handler) http.Handler, 
 		for i := 0; i < c.NMw; i++ {
 			opts = append(opts, godihttp.WithMiddleware(mk(i)))
 		}
+		decoy := func() {
+			d := []godihttp.Option{godihttp.WithErrorHandler(func(w http.ResponseWriter, rq *http.Request, err error) { r.decoyHit(); w.WriteHeader(598) }),
+				godihttp.WithCloseErrorHandler(func(error) { r.decoyHit() })}
+			for i := 0; i < c.DecoyMw; i++ {
+				d = append(d, godihttp.WithMiddleware(mk(100+i)))
+			}
+			r.decoys = append(r.decoys, godihttp.ScopeMiddleware(cp, d...))
+		}
+		if c.Decoy&1 != 0 {
+			decoy()
+		}
 		scopeMw = godihttp.ScopeMiddleware(cp, opts...)
+		if c.Decoy&2 != 0 {
+			decoy()
+		}
 		var ho []godihttp.HandlerOption
 		ho = append(ho, godihttp.WithPanicRecovery(c.Recovery))
 		if c.CustomHandler {
@@ -586,7 +640,23 @@ func (r *webRun) newGinApp() webApp {
 		}()
 		g.Next()
 	})
-	grp := e.Group("/s", godigin.ScopeMiddleware(cp, opts...))
+	decoy := func() {
+		d := []godigin.Option{godigin.WithErrorHandler(func(g *gin.Context, err error) { r.decoyHit(); g.Status(598) }),
+			godigin.WithCloseErrorHandler(func(error) { r.decoyHit() })}
+		for i := 0; i < c.DecoyMw; i++ {
+			i := i
+			d = append(d, godigin.WithMiddleware(func(s godi.Scope, g *gin.Context) error { return r.mwBody(100+i, s) }))
+		}
+		r.decoys = append(r.decoys, godigin.ScopeMiddleware(cp, d...))
+	}
+	if c.Decoy&1 != 0 {
+		decoy()
+	}
+	mainMw := godigin.ScopeMiddleware(cp, opts...)
+	if c.Decoy&2 != 0 {
+		decoy()
+	}
+	grp := e.Group("/s", mainMw)
 	grp.GET("/plain", func(g *gin.Context) {
 		s, err := godi.FromContext(g.Request.Context())
 		if e := r.handlerBody(s, err); e != nil {
@@ -671,7 +741,23 @@ func (r *webRun) newEchoApp() webApp {
 			return next(ec)
 		}
 	})
-	g := e.Group("/s", godiecho.ScopeMiddleware(cp, opts...))
+	decoy := func() {
+		d := []godiecho.Option{godiecho.WithErrorHandler(func(ec echo.Context, err error) error { r.decoyHit(); return ec.NoContent(598) }),
+			godiecho.WithCloseErrorHandler(func(error) { r.decoyHit() })}
+		for i := 0; i < c.DecoyMw; i++ {
+			i := i
+			d = append(d, godiecho.WithMiddleware(func(s godi.Scope, ec echo.Context) error { return r.mwBody(100+i, s) }))
+		}
+		r.decoys = append(r.decoys, godiecho.ScopeMiddleware(cp, d...))
+	}
+	if c.Decoy&1 != 0 {
+		decoy()
+	}
+	mainMw := godiecho.ScopeMiddleware(cp, opts...)
+	if c.Decoy&2 != 0 {
+		decoy()
+	}
+	g := e.Group("/s", mainMw)
 	g.GET("/plain", func(ec echo.Context) error {
 		s, err := godi.FromContext(ec.Request().Context())
 		return r.handlerBody(s, err)
@@ -790,7 +876,23 @@ func (r *webRun) newFiberApp() webApp {
 		}()
 		return fc.Next()
 	})
-	g := app.Group("/s", godifiber.ScopeMiddleware(cp, opts...))
+	decoy := func() {
+		d := []godifiber.Option{godifiber.WithErrorHandler(func(fc *fiber.Ctx, err error) error { r.decoyHit(); return fc.SendStatus(598) }),
+			godifiber.WithCloseErrorHandler(func(error) { r.decoyHit() })}
+		for i := 0; i < c.DecoyMw; i++ {
+			i := i
+			d = append(d, godifiber.WithMiddleware(func(s godi.Scope, fc *fiber.Ctx) error { return r.mwBody(100+i, s) }))
+		}
+		r.decoys = append(r.decoys, godifiber.ScopeMiddleware(cp, d...))
+	}
+	if c.Decoy&1 != 0 {
+		decoy()
+	}
+	mainMw := godifiber.ScopeMiddleware(cp, opts...)
+	if c.Decoy&2 != 0 {
+		decoy()
+	}
+	g := app.Group("/s", mainMw)
 	g.Get("/plain", func(fc *fiber.Ctx) error {
 		s := godifiber.FromContext(fc)
 		var err error
@@ -973,6 +1075,12 @@ func (r *webRun) judge(add func(rule, shape, f string, a ...any), out *RunOut) {
 				break
 			}
 		}
+		if usesScopeMw && rec.handlerRan+rec.methodRan > 0 && len(rec.mwOrder) != c.NMw {
+			add("C16.oneScope", "middleware-count", "%s: %d middlewares configured, the handler ran after %v", name, c.NMw, rec.mwOrder)
+		}
+		if rec.decoyCalls > 0 {
+			add("C16.oneScope", "foreign-options", "%s: %d calls reached handlers configured on another ScopeMiddleware instance", name, rec.decoyCalls)
+		}
 		if rec.handlerRan > 0 && rq.Route == routePlain && sc != nil && (rec.handlerScopeE != nil || rec.handlerScope != sc) {
 			add("C16.oneScope", "handler-scope", "%s: the handler saw scope %v (err %v), the request's scope is %v", name, scopeID(rec.handlerScope), rec.handlerScopeE, scopeID(sc))
 		}
@@ -1046,6 +1154,15 @@ func (r *webRun) judge(add func(rule, shape, f string, a ...any), out *RunOut) {
 		if !middlewareStopped {
 			switch rq.Route {
 			case routeHandle:
+				if rq.Exit == exitResolveFail {
+					if rec.methodRan != 0 {
+						add("C16.handle", "method-without-controller", "%s: controller method ran although the controller could not be resolved from the request's scope", name)
+					}
+					if c.CustomHandler && (rec.resErrH != 1 || rec.scopeErrH != 0) {
+						add("C16.handle", "resolution-error-handler", "%s: resolution-error handler ran %d times, scope-error handler %d times (expected 1/0)", name, rec.resErrH, rec.scopeErrH)
+					}
+					break
+				}
 				if rec.methodRan != 1 {
 					add("C16.handle", "method-count", "%s: controller method ran %d times", name, rec.methodRan)
 				}
